@@ -1,6 +1,6 @@
 (** Pinned statements of the C17 property theorems: compiled on every check, so a theorem cannot be
     weakened silently. *)
-From V Require Import Base.Util C17.Sites C17.Model C17.Proofs C17.Properties.
+From V Require Import Base.Util C17.Sites C17.Model C17.Spec C17.Proofs C17.Properties.
 From V Require Gen.C17_sites_gen.
 From Coq Require Import Permutation Sorting.Sorted.
 
@@ -43,6 +43,11 @@ Check (C17_extension_list_order_irrelevant : forall elem (l l' : xlist) t,
 Check (C17_extension_list_sorted : forall elem l t,
   into_original_and_extensions elem l = Ok t ->
   StronglySorted (fun a b => pos_leb (d_pos (fst a)) (d_pos (fst b)) = true) t).
+Check (C17_resolve_verdict : forall its,
+  vclass (resolve_schema_extensions its) = expected_class its).
+Check (C17_resolve_verdict_permutation : forall its its',
+  Permutation its its' ->
+  vclass (resolve_schema_extensions its) = vclass (resolve_schema_extensions its')).
 Print Assumptions C17_all_sites_accounted.
 Print Assumptions C17_known_sites_all_scanned.
 Print Assumptions C17_all_hash_files_accounted.
@@ -55,3 +60,5 @@ Print Assumptions C17_map_str_refuted.
 Print Assumptions C17_def_permutation.
 Print Assumptions C17_extension_list_order_irrelevant.
 Print Assumptions C17_extension_list_sorted.
+Print Assumptions C17_resolve_verdict.
+Print Assumptions C17_resolve_verdict_permutation.
